@@ -79,6 +79,7 @@ type Interp struct {
 	skipPhis   *ssa.BasicBlock
 	mapOrderAny bool
 	cfg        Config
+	uuidSeq    int // uuid.New calls on the current path
 	stats      stats
 	harnessName string
 	lastModel  Model
